@@ -271,6 +271,8 @@ def check_replicates(chk, r, quick):
                 configs.append((tname, "minipcn_smc", f"none/max_n_steps={cap}", None, {**tc, "max_n_steps": cap}))
             for ms in (0.3, 0.45):
                 configs.append((tname, "minipcn_smc", f"logit/min_step={ms}", preconds[1][1], {**tc, "min_step": ms}))
+            # the estimate of a run must not depend on what the sampler OBJECT did before: second fresh run on the same object
+            configs.append((tname, "minipcn_smc", "none/second-run=1", None, {**tc, "second_run": True}))
     if quick:
         configs = [c for i, c in enumerate(configs) if i % 2 == 0 or c[2] in ("logit",) or "=" in c[2]]
     summary = []
@@ -281,7 +283,11 @@ def check_replicates(chk, r, quick):
         failed = None
         for k in range(R):
             cfg = {**cfg0, "seed": base_seed + 1009 * k}
-            res = smcrun.run_sampler(cfg)
+            if cfg.pop("second_run", False):
+                first = smcrun.run_smc({**cfg, "seed": cfg["seed"] + 500_000})
+                res = smcrun.run_smc(cfg, reuse=first) if first["status"] == "done" else first
+            else:
+                res = smcrun.run_sampler(cfg)
             if res["status"] != "done":
                 failed = res
                 break
